@@ -1,7 +1,9 @@
 """C07 — image-stack frame and ROI indexing: correspondence + oracle (see DESIGN.md 6/C07).
 
 Every case runs on a REAL multi-page TIFF stack written by harness/builders_tiff.py (pixel values encode
-page/row/column/channel injectively) and opened with lumicks.pylake.ImageStack from the tree under test."""
+page/row/column/channel injectively) and opened with lumicks.pylake.ImageStack from the tree under test.  Where the
+pixel values are interpolated (rotated tethers, colour alignment) the stacks of harness/c07_beads.py show two Gaussian
+spots instead, whose positions are measured in every frame and colour channel (op "beads")."""
 import atexit
 import itertools
 import json
@@ -12,6 +14,7 @@ import warnings
 import numpy as np
 
 import builders_tiff as bt
+import c07_beads as cb
 from common import VERIF, dec_float, enc_float, enc_list, enc_opt, errname
 
 PROP = "C07"
@@ -40,6 +43,8 @@ THEOREMS = [
     "Verif.C07.tether_midpoint",
     "Verif.C07.tether_crop_consistent",
     "Verif.C07.F9_witness",
+    "Verif.C07.tether_maps_chosen_points",
+    "Verif.C07.align_then_rotate_order_matters",
 ]
 RULE = (
     "corpus (F2 inputs) + exhaustive small scope on real TIFF stacks of n<=6 frames of 4x5 pixels: every slice with "
@@ -50,7 +55,12 @@ RULE = (
     "slice.indices self-test; file/page lookup for all 1-3 files of 1-3 pages; legacy frame ranges + seeded random programs of 1-4 "
     "operations (frame slice, integer, crop_by_pixels, tuple index, time-string/timestamp slice, define_tether) on "
     "grey/RGB/two-colour, 1-3 file, constant/variable-exposure, legacy-export stacks of up to 60 frames; commuted "
-    "crop/slice pairs; horizontal-tether to_kymo (incl. the F20 class: left tether end cropped away); a malformed stream (zero step, 4-tuples, spatial steps, reversed "
+    "crop/slice pairs; horizontal-tether to_kymo (incl. the F20 class: left tether end cropped away); bead stacks (two "
+    "Gaussian spots; grey, RGB without alignment metadata, RGB with non-identity Bluelake alignment matrices - shifts of "
+    "up to 7 px, small rotations/scalings, alignment-ROI offsets - opened with align=True and align=False) with a tether "
+    "defined through the two beads at a grid of angles (0, 30, 90, -135, 180 degrees) and at random angles, crops/frame "
+    "selections before and after it and re-tethering: the spots are located in every frame and colour channel of "
+    "get_image() and must lie on the tether ends; a malformed stream (zero step, 4-tuples, spatial steps, reversed "
     "ROIs). Non-trivial: the program selects a proper non-empty subset of frames or pixels, or raises, or defines a "
     "tether."
 )
@@ -61,6 +71,9 @@ TRUSTED = [
     "tether: executed at Float in the model (sqrt, normalised direction (dx/r, dy/r) instead of arctan2/cos/sin and "
     "matrix products), compared with 1e-9*(1+|coordinates|); the tether_* theorems are about the same definitions "
     "at R (rounding is not modelled)",
+    "bead stacks: skimage.transform.warp (bilinear) moves the intensity-weighted centroid of a Gaussian spot of sigma >= 1.2 px "
+    "like the affine map it is given (measured: < 0.02 px over 80000 spots on /repo; compared with 0.25 px); the spots are "
+    "located without using the expected positions (two brightest maxima, centroid in a window of 3 sigma + 1)",
 ]
 ASSUMPTIONS = [
     "stacks built by the code have a positive step (hypothesis 0 < st of slice_refines/index_refines; established by "
@@ -69,7 +82,10 @@ ASSUMPTIONS = [
     "exposure metadata is an integer number of ns below 2^40 (round(1e6*ms) recovers it exactly)",
     "to_kymo is exercised for horizontal left-to-right tethers on stacks of >= 2 frames with constant period and a "
     "tether of >= 2 pixels (a single frame raises an undocumented IndexError, a 1-pixel tether an AxisError from "
-    "numpy's squeeze; rotated tethers go through skimage.warp: geometry of the end points checked, pixels not)",
+    "numpy's squeeze; rotated tethers go through skimage.warp: geometry of the end points checked, and on bead stacks "
+    "that every colour channel shows the chosen points on them; other interpolated pixel values are not compared)",
+    "bead stacks: the beads are followed only if, when the points are chosen, every colour channel of the image shows them "
+    "at the chosen points within 0.25 px (holds for all generated cases on /repo; counted in coverage.bead_cases_followed)",
 ]
 
 FIRST_TS = bt.FIRST_TIMESTAMP
@@ -83,6 +99,17 @@ def stacks():
         _STACKS = bt.TiffStacks()
         atexit.register(_STACKS.close)
     return _STACKS
+
+
+_BEADS = None
+
+
+def bead_stacks():
+    global _BEADS
+    if _BEADS is None:
+        _BEADS = cb.BeadStacks()
+        atexit.register(_BEADS.close)
+    return _BEADS
 
 
 # ------------------------------------------------------------------ helpers
@@ -229,8 +256,51 @@ def impl_prog(spec, prog):
             return err_token(e)
 
 
+def first_frame(stack):
+    img = np.asarray(stack.get_image())
+    return img.reshape(tuple(int(x) for x in stack.shape))[0]
+
+
+def observe_beads(spec, stack, pre):
+    """bead stacks (content = two spots): timestamps/shape/tether as in `observe`, plus where every frame and colour
+    channel of get_image() shows the two spots (brightest first)"""
+    nf = int(stack.num_frames)
+    shape = tuple(int(x) for x in stack.shape)
+    img = np.asarray(stack.get_image())
+    if img.size != int(np.prod(shape)):
+        return f"undecodable shape={shape} squeezed={tuple(img.shape)}"
+    img = img.reshape(shape)
+    teth = stack._src._tether
+    ends = None
+    if teth:
+        (x1, y1), (x2, y2) = teth.ends
+        ends = [float(x1), float(y1), float(x2), float(y2)]
+    return "B" + json.dumps({
+        "expo": show_ranges(stack.frame_timestamp_ranges()), "dead": show_ranges(stack.frame_timestamp_ranges(include_dead_time=True)),
+        "start": int(stack.start), "stop": int(stack.stop), "tether": ends, "nf": nf, "shape": list(shape),
+        "pre": pre, "post": [cb.locate(spec, img[i]) for i in range(shape[0])],
+    }, sort_keys=True)
+
+
+def impl_beads(spec, prog):
+    with warnings.catch_warnings():
+        warnings.simplefilter("ignore")
+        try:
+            stack = bead_stacks().get(spec)
+            pre = None
+            for st in prog:
+                if st[0] == "T" and pre is None:
+                    pre = cb.locate(spec, first_frame(stack))  # what the image shows at the moment the points are chosen
+                stack, _ = run_prog(stack, [st])
+            return observe_beads(spec, stack, pre)
+        except Exception as e:
+            return err_token(e)
+
+
 def impl(case):
     k = case["op"]
+    if k == "beads":
+        return [impl_beads(case["spec"], case["prog"])]
     if k == "prog":
         return [impl_prog(case["spec"], case["prog"])]
     if k == "commute":
@@ -314,8 +384,20 @@ def run_line(spec, prog):
     ).rstrip()
 
 
+def land_line(spec, prog):
+    """c07.land: the program as for c07.run, plus per colour channel the alignment metadata and the raw bead positions"""
+    if cb.aligned(spec):
+        mats = "|".join(",".join(enc_float(v) for v in list(m) + list(spec["aoff"])) for m in spec["mats"])
+    else:
+        mats = "|".join("-" for _ in range(cb.channels(spec)))
+    pts = "|".join(";".join(f"{enc_float(x)},{enc_float(y)}" for x, y in ch) for ch in cb.raw_points(spec))
+    return "c07.land " + mats + " " + pts + " " + run_line(spec, prog)[len("c07.run "):]
+
+
 def ops(case):
     k = case["op"]
+    if k == "beads":
+        return [land_line(case["spec"], case["prog"])]
     if k == "prog":
         return [run_line(case["spec"], case["prog"])]
     if k == "commute":
@@ -360,7 +442,90 @@ def parse_kymo(ans):
     return chans, lt, start
 
 
+BEAD_TOL = 0.25  # pixels: centroid of an interpolated spot vs. computed position (measured on /repo: < 0.02 over 80000 spots)
+
+
+def bead_track(spec, prog):
+    """From the property text: where the two beads are expected in the image the program ends with.  Crops move them
+    by the change of origin (array slicing), frame selections leave them alone, and a tether defined THROUGH the two
+    beads puts them on a horizontal line of unchanged length and midpoint.  Returns (positions when the first tether
+    is defined, final positions); final positions are None when a tether is defined through other points (then the
+    property says nothing about the beads)."""
+    pos = [np.array(b, dtype=float) for b in spec["beads"]]
+    origin = np.array([0.0, 0.0])
+    pre = None
+    for k, st in enumerate(prog):
+        if st[0] == "T":
+            if pre is None:
+                pre = [p.copy() for p in pos]
+            if pos is None:
+                continue
+            p, q = np.array(st[1:3], dtype=float), np.array(st[3:5], dtype=float)
+            same = all(min(np.abs(b - p).max(), np.abs(b - q).max()) < 1e-6 for b in pos) and np.abs(p - q).max() > 1e-6
+            if not same:
+                pos = None
+                continue
+            mid, half = (p + q) / 2, np.array([math.hypot(*(q - p)) / 2, 0.0])
+            pos = [mid - half, mid + half]
+        else:
+            _, rows, cols, _ = simulate(spec, prog[: k + 1])
+            new = np.array([float(cols[0]), float(rows[0])])
+            if pos is not None:
+                pos = [b - (new - origin) for b in pos]
+            origin = new
+    return pre, pos
+
+
+def beads_match(found, expected, ordered):
+    """found: [[x, y] | None, [x, y] | None] (brightest first), expected: two points (first = the brighter bead)"""
+    if found is None or any(f is None for f in found):
+        return False
+    orders = [expected] if ordered else [expected, expected[::-1]]
+    return any(all(max(abs(f[0] - e[0]), abs(f[1] - e[1])) <= BEAD_TOL for f, e in zip(found, o)) for o in orders)
+
+
+def beads_pre_ok(spec, prog, obs):
+    """precondition of the bead observation: when the points were chosen, every colour of the image showed the
+    beads at the chosen points"""
+    try:
+        pre, _ = bead_track(spec, prog)
+    except Expect:
+        return False
+    if pre is None or obs.get("pre") is None:
+        return False
+    return all(beads_match(ch, pre, True) for ch in obs["pre"])
+
+
+def agree_beads(case, ia, ma):
+    if not ma.startswith("ok "):
+        return ia == ma
+    if not ia.startswith("B"):
+        return False
+    o = json.loads(ia[1:])
+    mt = ma.split(" ")
+    x0, x1, y0, y1 = [int(v) for v in mt[2].split(",")]
+    if [o["expo"], o["dead"], str(o["start"]), str(o["stop"])] != mt[3:7]:
+        return False
+    if o["nf"] != len(json.loads(mt[1])) or o["shape"][:3] != [o["nf"], y1 - y0, x1 - x0]:
+        return False
+    it = "none" if o["tether"] is None else ",".join(enc_float(v) for v in o["tether"])
+    if not tether_close(it, mt[7]):
+        return False
+    if not beads_pre_ok(case["spec"], case["prog"], o):
+        return True  # the spots cannot be followed on this stack: nothing to compare
+    land = [[[dec_float(v) for v in pt.split(",")] for pt in ch.split(";")] for ch in mt[8].split("|")]
+    for frame in o["post"]:
+        if len(frame) != len(land):
+            return False
+        for found, exp in zip(frame, land):
+            if not beads_match(found, exp, True):
+                return False
+    return True
+
+
 def agree(case, i, ia, ma):
+    if case["op"] == "beads":
+        return agree_beads(case, ia, ma)
     if case["op"] in ("prog", "commute"):
         if not ma.startswith("ok "):
             return ia == ma
@@ -597,8 +762,59 @@ def oracle_kymo(spec, prog, pages, rows, cols, geo, ans):
     return None
 
 
+def oracle_beads(spec, prog, ans):
+    table = bt.page_table(spec)
+    try:
+        pages, rows, cols, geo = simulate(spec, prog)
+        pre, pos = bead_track(spec, prog)
+    except Expect as e:
+        if ans != e.token:
+            return f"error-clause: numpy/array semantics give {e.token} for {json.dumps(prog)}, implementation says {ans[:200]}"
+        return None
+    pages = [int(p) for p in pages]
+    if not ans.startswith("B"):
+        return f"selection: array semantics select frames {pages}, implementation says {ans[:200]}"
+    o = json.loads(ans[1:])
+    expo = show_ranges([(table[p][0], table[p][2]) for p in pages])
+    dead = show_ranges([(table[p][0], table[p][1]) for p in pages])
+    if o["expo"] != expo or o["dead"] != dead:
+        return f"timestamps: frame_timestamp_ranges() = {o['expo'][:200]} / {o['dead'][:200]}, pages {pages} have {expo[:200]} / {dead[:200]}"
+    if o["start"] != table[pages[0]][0] or o["stop"] != table[pages[-1]][2]:
+        return f"start/stop: {o['start']} {o['stop']} vs {table[pages[0]][0]} {table[pages[-1]][2]}"
+    exp_shape = [len(pages), len(rows), len(cols)] + ([3] if spec["colour"] != "grey" else [])
+    if o["nf"] != len(pages) or o["shape"] != exp_shape:
+        return f"shape: num_frames={o['nf']} shape={o['shape']}, expected {exp_shape}"
+    scale = 1 + max([abs(v) for v in o["tether"] or []] + [0.0])
+    if geo["defined"]:
+        if o["tether"] is None:
+            return "tether: define_tether was called but the stack has no tether"
+        x1, y1, x2, y2 = o["tether"]
+        if abs(y1 - y2) > 1e-9 * scale:
+            return f"tether-horizontal: ends {(x1, y1)}, {(x2, y2)} are not on a horizontal line"
+        if abs((x2 - x1) - geo["len"]) > 1e-9 * scale:
+            return f"tether-length: {x2 - x1} vs chosen distance {geo['len']}"
+    elif o["tether"] is not None:
+        return "tether: a tether appeared without define_tether"
+    if pos is None or not beads_pre_ok(spec, prog, o):
+        return None
+    exp = [[float(v) for v in b] for b in pos]
+    if o["tether"] is not None:
+        # the ends the stack reports are the two chosen points on their horizontal line
+        x1, y1, x2, y2 = o["tether"]
+        if max(abs(x1 - exp[0][0]), abs(y1 - exp[0][1]), abs(x2 - exp[1][0]), abs(y2 - exp[1][1])) > 1e-6 * scale:
+            return f"tether-midpoint: ends {o['tether']} vs the horizontal line of unchanged length and midpoint {exp}"
+    for i, frame in enumerate(o["post"]):
+        for c, found in enumerate(frame):
+            if not beads_match(found, exp, False):
+                return (f"tether-pixels: the image content of the two chosen points (beads) is shown at {found} in frame {i}, "
+                        f"colour channel {c}, instead of on the horizontal line of unchanged length and midpoint {exp}")
+    return None
+
+
 def oracle(case, ia):
     k = case["op"]
+    if k == "beads":
+        return oracle_beads(case["spec"], case["prog"], ia[0])
     if k == "prog":
         return oracle_prog(case["spec"], case["prog"], ia[0])
     if k == "commute":
@@ -645,6 +861,11 @@ def oracle(case, ia):
 
 def nontrivial(case, ia):
     k = case["op"]
+    if k == "beads":
+        if not ia[0].startswith("B"):
+            return True
+        o = json.loads(ia[0][1:])
+        return o["tether"] is not None and beads_pre_ok(case["spec"], case["prog"], o)
     if k in ("prog", "commute"):
         a = ia[0]
         if not a.startswith("ok "):
@@ -667,6 +888,9 @@ def nontrivial(case, ia):
 
 def tags(case, r):
     t = {"op": case["op"]}
+    if case["op"] == "beads":
+        t["kinds"] = "".join(s[0] for s in case["prog"])
+        t["aligned"] = cb.aligned(case["spec"])
     if case["op"] == "prog":
         kinds = [s[0] for s in case["prog"]]
         stepped = False
@@ -696,6 +920,27 @@ def kymo_left_outside(case):
 
 def shrink(case):
     k = case["op"]
+    if k == "beads":
+        prog, spec = case["prog"], case["spec"]
+        last_t = max((i for i, st in enumerate(prog) if st[0] == "T"), default=-1)
+        for i in range(len(prog) - 1, last_t, -1):  # steps after the last tether can go without touching coordinates
+            c = dict(case)
+            c["prog"] = prog[:i] + prog[i + 1 :]
+            yield c
+        for i, st in enumerate(prog[: max(last_t, 0)]):
+            if st[0] in ("s", "i"):
+                c = dict(case)
+                c["prog"] = prog[:i] + prog[i + 1 :]
+                yield c
+        if spec["files"][0] > 1:
+            c = dict(case)
+            c["spec"] = dict(spec, files=[1])
+            yield c
+        if spec["aoff"] != [0, 0]:
+            c = dict(case)
+            c["spec"] = dict(spec, aoff=[0, 0])
+            yield c
+        return
     if k in ("prog", "commute") and k == "prog":
         prog = case["prog"]
         for i in range(len(prog)):
@@ -906,6 +1151,110 @@ def random_prog(rng, spec, length):
     return prog
 
 
+def rnd_alignment(rng):
+    """three Bluelake-style channel alignment matrices: shifts of several pixels, sometimes with a small rotation and
+    scaling; green is usually the reference (identity)"""
+    mats = []
+    for ch in range(3):
+        if (ch == 1 and rng.chance(0.7)) or rng.chance(0.1):
+            mats.append([1.0, 0.0, 0.0, 0.0, 1.0, 0.0])
+            continue
+        phi = math.radians(rng.uniform(-2.0, 2.0)) if rng.chance(0.5) else 0.0
+        sc = rng.uniform(0.98, 1.02) if rng.chance(0.5) else 1.0
+        tx, ty = rng.uniform(-7.0, 7.0), rng.uniform(-7.0, 7.0)
+        if rng.chance(0.3):
+            tx, ty = float(round(tx)), float(round(ty))
+        mats.append([sc * math.cos(phi), -sc * math.sin(phi), tx, sc * math.sin(phi), sc * math.cos(phi), ty])
+    return mats
+
+
+BEAD_FLAVOURS = ["grey", "rgb-plain", "rgb-aligned", "rgb-aligned", "rgb-aligned", "rgb-unaligned"]
+
+
+def bead_case(rng, stream, flavour=None, theta=None, pre_crop=None, post=None, subseed=None):
+    """a bead stack and a program `[crop/slice]* define_tether(bead 1, bead 2) [crop/slice/re-tether]*` whose beads stay
+    clear of every image border (raw, aligned, rotated, cropped) so that their centroids can be measured.  Arguments
+    left at None are drawn from `rng`."""
+    flavour = flavour or rng.choice(BEAD_FLAVOURS)
+    for _ in range(200):
+        sigma = rng.choice([1.2, 1.5, 1.8])
+        m = cb.win_radius(sigma) + 1
+        h, w, n = rng.randint(36, 50), rng.randint(46, 66), rng.randint(1, 4)
+        prog = []
+        ox = oy = 0
+        cw, ch = w, h
+        do_pre = rng.chance(0.4) if pre_crop is None else pre_crop
+        if do_pre:
+            ox, oy = rng.randint(0, 6), rng.randint(0, 5)
+            ex, ey = rng.randint(0, 6), rng.randint(0, 5)
+            cw, ch = w - ox - ex, h - oy - ey
+            x1 = rng.choice([w - ex, -ex if ex else None, w - ex])
+            y1 = rng.choice([h - ey, -ey if ey else None, h - ey])
+            prog.append(["c", ox, x1, oy, y1] if rng.chance(0.7) else ["g", [None, None], [oy, y1], [ox, x1]])
+        if n > 1 and rng.chance(0.3):
+            a, b = rnd_range(rng, n)
+            prog.append(["s", a, b, rng.choice([None, None, 2])])
+        # tether through the beads: centre c, half length hl, angle th in the current (cropped) image
+        cx, cy = cw / 2 + rng.uniform(-4, 4), ch / 2 + rng.uniform(-3, 3)
+        if rng.chance(0.25):
+            cx, cy = float(round(cx * 2) / 2), float(round(cy * 2) / 2)
+        rmax = min(cx, cw - 1 - cx, cy, ch - 1 - cy) - m
+        hl_min = cb.win_radius(sigma) + 2.0
+        if rmax < hl_min:
+            continue
+        hl = rng.uniform(hl_min, rmax)
+        th = theta
+        if th is None:
+            th = rng.choice([rng.uniform(-180, 180)] * 6 + [0.0, 90.0, -90.0, 180.0, rng.uniform(-8, 8), 180 + rng.uniform(-8, 8)])
+        if th == 0.0:
+            dx, dy = hl, 0.0  # exactly horizontal, left to right: the rotation is the identity
+        else:
+            dx, dy = hl * math.cos(math.radians(th)), hl * math.sin(math.radians(th))
+        p, q = [cx - dx, cy - dy], [cx + dx, cy + dy]
+        prog.append(["T", p[0], p[1], q[0], q[1]])
+        hl = math.hypot(q[0] - p[0], q[1] - p[1]) / 2
+        ea, eb = [(p[0] + q[0]) / 2 - hl, (p[1] + q[1]) / 2], [(p[0] + q[0]) / 2 + hl, (p[1] + q[1]) / 2]
+        kind = post if post is not None else rng.choice(["none", "none", "crop", "crop", "frames", "crop+frames", "retether", "retether+crop"])
+        if "retether" in kind:
+            ends = [ea, eb] if rng.chance(0.5) else [eb, ea]
+            prog.append(["T", ends[0][0], ends[0][1], ends[1][0], ends[1][1]])
+        if "crop" in kind:
+            x0, x1 = rng.randint(0, max(0, int(math.floor(ea[0] - m)))), rng.randint(min(cw, int(math.ceil(eb[0] + m)) + 1), cw)
+            y0, y1 = rng.randint(0, max(0, int(math.floor(ea[1] - m)))), rng.randint(min(ch, int(math.ceil(ea[1] + m)) + 1), ch)
+            x1 = rng.choice([x1, x1, x1 - cw if x1 < cw else None])
+            y1 = rng.choice([y1, y1, y1 - ch if y1 < ch else None])
+            prog.append(["c", x0, x1, y0, y1] if rng.chance(0.6) else ["g", [None, None], [y0, y1], [x0, x1]])
+        if "frames" in kind:
+            prog.append(rng.choice([["i", rng.randint(-1, 0)], ["s", None, None, 2], ["s", 0, 1, None], ["g", -1]]))
+        beads = [[p[0] + ox, p[1] + oy], [q[0] + ox, q[1] + oy]]
+        mats, aoff, roi_xy, open_align, colour = None, [0, 0], [0, 0], True, "rgb"
+        if flavour == "grey":
+            colour = "grey"
+        elif flavour in ("rgb-aligned", "rgb-unaligned"):
+            mats = rnd_alignment(rng)
+            open_align = flavour == "rgb-aligned"
+            if rng.chance(0.3):
+                aoff = [rng.randint(-10, 10), rng.randint(-10, 10)]
+                roi_xy = [rng.randint(max(0, -aoff[0]), 40), rng.randint(max(0, -aoff[1]), 40)]
+        try:
+            spec = cb.make_bead_spec(h, w, n, colour, beads, sigma, mats=mats, aoff=aoff, roi_xy=roi_xy, open_align=open_align,
+                                     period=rng.choice([100_000_000, 40_000_000]), exposure=rng.choice([None, 30_000_000]))
+        except ValueError:
+            continue
+        # the raw beads must be inside the raw page too
+        if any(not (m <= x <= w - 1 - m and m <= y <= h - 1 - m) for chn in cb.raw_points(spec) for x, y in chn):
+            continue
+        try:
+            simulate(spec, prog)
+        except Expect:
+            continue
+        c = {"stream": stream, "op": "beads", "spec": spec, "prog": prog, "flavour": flavour}
+        if subseed is not None:
+            c["subseed"] = subseed
+        return c
+    raise RuntimeError("bead_case: no admissible geometry found")
+
+
 def load_corpus():
     d = os.path.join(VERIF, "corpus", PROP)
     out = []
@@ -1099,6 +1448,18 @@ def cases(tier, rng):
             prog.append(["c", None, sub.choice([None, cw - 1]) if cw - 1 > x1 + 2 else None, None, None])
         prog.append(["k", sub.choice([0, 0, 1, 1, 2])])
         yield prog_case("kymo", spec, prog, subseed=i)
+    # ---- where the pixels go: stacks showing two beads, tether through the beads at any angle (interpolated pixel
+    # values), every colour channel, non-identity colour alignment, crops and frame selections before and after
+    r = rng.fork("c07-beads-grid")
+    for flavour in ("grey", "rgb-plain", "rgb-aligned", "rgb-unaligned"):
+        for theta in (0.0, 30.0, 90.0, -135.0, 180.0):
+            for pre_crop, post in ((False, "none"), (True, "none"), (False, "crop"), (True, "crop+frames")) if quick else \
+                    ((False, "none"), (True, "none"), (False, "crop"), (True, "crop+frames"), (False, "retether"), (True, "retether+crop"), (False, "frames")):
+                yield bead_case(r.fork(f"{flavour}{theta}{pre_crop}{post}"), "beads-grid", flavour, theta, pre_crop, post)
+    KB = 150 if quick else 2500
+    r = rng.fork("c07-beads")
+    for i in range(KB):
+        yield bead_case(r.fork(i), "beads", subseed=i)
     # tether whose left end is cut off by a later crop (finding F20: the negative x wraps around in Roi.crop)
     K2 = 40 if quick else 400
     r = rng.fork("c07-kymo-outside")
@@ -1115,7 +1476,7 @@ def cases(tier, rng):
 
 
 def extra_coverage(results):
-    kinds, errs, sizes, colours, files, lens = {}, {}, {}, {}, {}, {}
+    kinds, errs, sizes, colours, files, lens, beads = {}, {}, {}, {}, {}, {}, {}
     for r in results:
         c = r["case"]
         kinds[c["op"]] = kinds.get(c["op"], 0) + 1
@@ -1123,6 +1484,15 @@ def extra_coverage(results):
             if not a.startswith(("ok ", "kymo ")) and not a[:1].isdigit() and c["op"] in ("prog", "commute", "roi"):
                 key = a.split(":")[0]
                 errs[key] = errs.get(key, 0) + 1
+        if c["op"] == "beads":
+            a = r["impl"][0]
+            key = c.get("flavour", "?")
+            if a.startswith("B"):
+                o = json.loads(a[1:])
+                key += "" if beads_pre_ok(c["spec"], c["prog"], o) else " (beads not visible at the chosen points: not followed)"
+            else:
+                key += " (raised)"
+            beads[key] = beads.get(key, 0) + 1
         if c["op"] in ("prog", "commute"):
             s = c["spec"]
             n = sum(s["files"])
@@ -1134,7 +1504,7 @@ def extra_coverage(results):
                 lens[st[0]] = lens.get(st[0], 0) + 1
     return {
         "case_kinds": kinds, "error_kinds": errs, "stack_sizes": sizes, "colour_formats": colours, "files_per_stack": files,
-        "operations_by_kind": lens, "exhaustive": False,
+        "operations_by_kind": lens, "bead_cases_followed": beads, "exhaustive": False,
         "exhaustive_note": "small-scope, roi-exhaustive, py-selftest, pages, legacy streams enumerate their finite spaces "
                            "completely; random-programs, commute, kymo streams are seeded samples",
     }
